@@ -26,11 +26,21 @@ with open(out, "w") as f:
                             "want": ["facts", "pretty", "tokens", "mir"]}) + "\n")
     # protocol edge cases: default `want`, default name, junk line, unknown syntax
     f.write(json.dumps({"id": "default-want", "syntax": "dsl", "text": "config { type BufferAddressType = u8; } buffer B = 1"}) + "\n")
+    f.write(json.dumps({"id": "noparse", "syntax": "dsl", "want": ["noparse"],
+                        "text": "config { type BufferAddressType = u8; } buffer B = 1"}) + "\n")
+    # generator panic on the unchanged tree (count > i64::MAX): must be reported as "panic", runner continues
+    f.write(json.dumps({"id": "hugecount", "syntax": "dsl", "want": [],
+                        "text": "config { type RegisterAddressType = u8; } register R { const ADDRESS = 0; "
+                                "const SIZE_BITS = 8; const REPEAT = { count: 18446744073709551615, stride: 0 }; "
+                                "v: uint = 0..8 }"}) + "\n")
     f.write("this is not json\n")
     f.write(json.dumps({"id": "bad-syntax", "syntax": "xml", "text": ""}) + "\n")
 EOF
 
 "$BIN" "$OUT/cases.jsonl" > "$OUT/out.jsonl"
+# parallel mode must give byte-identical output
+"$BIN" --jobs 4 "$OUT/cases.jsonl" > "$OUT/out.jobs4.jsonl"
+cmp "$OUT/out.jsonl" "$OUT/out.jobs4.jsonl"
 # --one mode must give the same answer as the batch mode
 "$BIN" --one dsl "$HERE/selftest/t1_all.dsl" Dev facts,pretty,tokens,mir > "$OUT/one.json"
 
@@ -42,7 +52,8 @@ res = [json.loads(l) for l in open(os.path.join(out, "out.jsonl"))]
 assert len(cases) == len(res), (len(cases), len(res))
 expect = {"t1_all.dsl": "ok", "t2_cfg.dsl": "ok", "t3_rejected.dsl": "error", "t4_syntax.dsl": "error",
           "t5_lex.dsl": "error", "t6_big.dsl": "ok", "t7.json": "ok", "t8.yaml": "ok", "t9.toml": "ok",
-          "default-want": "ok", None: "error", "bad-syntax": "error"}
+          "default-want": "ok", "noparse": "ok", "hugecount": ("panic", "error"), None: "error",
+          "bad-syntax": "error"}
 bad = 0
 def J(x): return json.dumps(x, sort_keys=True)
 for c, r in zip(cases, res):
@@ -52,7 +63,9 @@ for c, r in zip(cases, res):
     print("=" * 100)
     print(f"case {cid}: status={r['status']} parse_ok={r.get('parse_ok')} hash={r.get('tokens_hash')} "
           f"message={r.get('message')!r}")
-    if r["status"] != expect[cid]:
+    if r["status"] == "panic":
+        print("  panic_location:", r.get("panic_location"))
+    if r["status"] not in (expect[cid] if isinstance(expect[cid], tuple) else (expect[cid],)):
         print(f"  !!! expected status {expect[cid]}"); bad += 1
     if "mir" in r:
         print("  mir:", r["mir"][:100].replace("\n", " "), "...")
@@ -65,6 +78,8 @@ for c, r in zip(cases, res):
         open(p, "w").write(r["pretty"])
         print("  pretty ->", p)
         if verbose: print(r["pretty"])
+    if "facts" not in r:
+        continue
     f = r["facts"]
     for b in f["blocks"]:
         ms, ra, raa = b.pop("methods"), b.pop("read_all"), b.pop("read_all_async")
